@@ -335,6 +335,7 @@ impl<'a> G<'a> {
         self.del_mark("(", "LPAREN", "MissingExpectedLParen", true);
         let st = self.out.len();
         let n = self.u.below(5);
+        if nr && self.u.coin(1, 4) { self.masked_call_text(); }
         for _ in 0..n {
             self.tp();
             match self.u.below(10) {
@@ -346,6 +347,7 @@ impl<'a> G<'a> {
                 5 => { self.mark(";", MK::Masked); }
                 6 => { self.gopen(); if !nr && self.u.coin(1, 3) { self.feat("call-inside-str-group"); self.d_inc(); self.user_call(2); self.depth -= 1; if !self.out.ends_with(')') { self.p(" w"); } } else { self.p("in"); } self.tp(); self.mark(",", MK::Masked); self.p("ner"); self.tp(); self.gclose(); }
                 7 => { if nr { self.p("&amp %mac"); } else { self.mvar(true); } }
+                8 if nr && self.u.coin(1, 2) => { match self.u.below(3) { 0 => self.p("'q;'"), 1 => self.p("/*c,)*/"), _ => {} } self.masked_call_text(); }
                 8 => { self.feat("str-inner-tokens"); match self.u.below(6) { 0 => self.p("'q;' "), 1 => self.p("\"r,\" "), 2 => self.p("/"), 3 => self.p("/*c,)*/"), 4 => self.p("\n"), _ => { if nr { self.p("%"); self.p(" "); } else { self.d_inc(); self.user_call(2); self.depth -= 1; if !self.out.ends_with(')') { self.p(" w"); } } } } }
                 9 if !nr && self.u.coin(1, 3) => { self.feat("stat-in-str"); self.d_inc(); if self.u.coin(1, 2) { self.str_with_stat(); } else if self.u.coin(1, 2) { self.let_stmt(); } else { self.put_stmt(); } self.depth -= 1; }
                 _ => { self.mark("=", MK::Masked); }
@@ -353,6 +355,14 @@ impl<'a> G<'a> {
         }
         self.str_regions.push((st, self.out.len()));
         self.mark(")", MK::Delim("RPAREN", true));
+    }
+    // inside %nrstr a macro call is masked: '%inner(a,b=c)' is plain text, none of its characters is a delimiter token
+    fn masked_call_text(&mut self) {
+        self.feat("masked-call-in-nrstr");
+        let nm = self.pick(&["%inner", "%m", "%upcase", "%let x", "%eval"]); self.p(nm);
+        self.mark("(", MK::Masked); self.open_parens += 1; self.open_text += 1;
+        self.p("a"); self.tp(); self.mark(",", MK::Masked); self.p("b"); if self.u.coin(1, 2) { self.mark("=", MK::Masked); self.p("c"); }
+        self.mark(")", MK::Masked); self.open_parens = self.open_parens.saturating_sub(1); self.open_text = self.open_text.saturating_sub(1);
     }
     fn del_mark(&mut self, s: &'static str, tok: &'static str, err: &'static str, hidden: bool) { let off = self.out.len(); self.mark(s, MK::Delim(tok, hidden)); self.dels.push(Deletable { off, len: s.len(), err, tok, at_mark: None }); }
 
